@@ -416,6 +416,65 @@ func c13Judge(c *core.Ctx, k c13case, res *core.ShardResult) (vs []core.Violatio
 	return
 }
 
+// c13ShellNames: one variable per invocation whose name the shell, the C library or common tools give a
+// meaning to. The template and the environment a child program sees (printenv) must hold the spokfile's
+// value for every one of them; the shell's own "$NAME" expansion too, except for the parameters a POSIX
+// shell computes itself (PPID, LINENO). Witness keys are "shell-maintained:<NAME>".
+var c13ShellNameList = []string{"HOME", "PWD", "IFS", "PATH", "UID", "EUID", "GID", "PPID", "RANDOM", "SECONDS", "LINENO", "OPTIND", "OPTARG", "OLDPWD",
+	"HOSTNAME", "SHLVL", "SHELL", "USER", "LOGNAME", "LANG", "LC_ALL", "TERM", "TMPDIR", "BASH", "ENV", "CDPATH", "REPLY", "FUNCNAME", "GOFLAGS", "GOCACHE", "EDITOR", "TZ"}
+
+func c13ShellNames(c *core.Ctx) *core.ShardResult {
+	out := make([]*core.ShardResult, len(c13ShellNameList))
+	core.ParallelFor(len(c13ShellNameList), c.NCPU, func(i int) {
+		res := core.NewShardResult()
+		out[i] = res
+		name := c13ShellNameList[i]
+		val := "spokfile value of " + name
+		if name == "PATH" {
+			val = "/usr/local/bin:/usr/bin:/bin:/spokfile-value-of-PATH"
+		}
+		sb := newSandbox(c.TempDir("c13s-"))
+		defer os.RemoveAll(sb.Root)
+		text := fmt.Sprintf("%s := \"%s\"\n\ntask show() {\n    printf '%%s\\n' '<{{.%s}}>'\n    printf '%%s\\n' \"$%s\"\n    printenv %s\n}\n", name, val, name, name, name)
+		_ = os.WriteFile(filepath.Join(sb.Proj, "spokfile"), []byte(text), 0o644)
+		inv := core.RunSpok(core.SpokOpts{Bin: c.SpokRace(), Dir: sb.Proj, Home: sb.Home, Args: []string{"--json", "show"}, Env: []string{name + "=ambient value of " + name}})
+		res.Evaluations++
+		bad := func(clause, format string, args ...any) {
+			res.Violate(core.Violation{Property: "C13", Clause: clause, Key: "shell-maintained:" + name, Case: core.JSON(map[string]string{"shell_name": name}),
+				Detail: fmt.Sprintf(format, args...) + "\nspokfile:\n" + text})
+		}
+		if inv.Crashed() || inv.Race || inv.TimedOut {
+			bad("binary-no-crash", "spok crashed, raced or hung: %s", core.Trunc(inv.Stderr, 500))
+			return
+		}
+		var jr []jsonResult
+		if inv.Exit != 0 || json.Unmarshal([]byte(strings.TrimSpace(inv.Stdout)), &jr) != nil || len(jr) != 1 || len(jr[0].Results) != 3 {
+			bad("run-succeeds", "spok --json show: exit %d, stdout %s, stderr %s", inv.Exit, core.Trunc(inv.Stdout, 300), core.Trunc(inv.Stderr, 300))
+			return
+		}
+		r := jr[0].Results
+		if r[0].Stdout != "<"+val+">\n" {
+			bad("template-substitution", "variable %s = %q but the command printed %q for '<{{.%s}}>'", name, val, r[0].Stdout, name)
+			return
+		}
+		if r[2].Stdout != val+"\n" {
+			bad("environment-has-spokfile-value", "variable %s = %q but a program started by the command finds %q in its environment (printenv %s)", name, val, strings.TrimSuffix(r[2].Stdout, "\n"), name)
+			return
+		}
+		if name != "PPID" && name != "LINENO" && r[1].Stdout != val+"\n" {
+			bad("environment-has-spokfile-value", "variable %s = %q but \"$%s\" in the command expands to %q", name, val, name, strings.TrimSuffix(r[1].Stdout, "\n"))
+			return
+		}
+		res.Count("shell_named_variables_checked", 1)
+		res.Distinct(core.Hash64("shell-name", name))
+	})
+	total := core.NewShardResult()
+	for _, o := range out {
+		total.Merge(o)
+	}
+	return total
+}
+
 func c13Run(c *core.Ctx) bool {
 	n := c.Q(700, 8000)
 	results := make([]*core.ShardResult, n)
@@ -431,12 +490,13 @@ func c13Run(c *core.Ctx) bool {
 	for _, r := range results {
 		total.Merge(r)
 	}
+	total.Merge(c13ShellNames(c))
 	reportAll(c, total)
 	distinct := total.DistinctCount()
 	cov := map[string]any{
 		"evaluations":         total.Evaluations,
 		"distinct_nontrivial": distinct,
-		"rule":                "random variable sets (0-6 variables: strings over printable ASCII without quote characters incl. blanks $ { } \\ % leading '-', join of 0-4 parts incl. '', '.', '..', absolute, exec of printf commands with surrounding blanks/newlines, sometimes one failing exec; names that are also set, with other values, in the ambient environment and/or the .env file) and a task whose commands print '<lit>{{.NAME}}<lit>' (inside single quotes) and \"$NAME\" and run `printenv NAME` (a child program's view of the environment) for every variable; values may hold text that looks like a reference ({{.FOO}}, $FOO); race-built binary with --json and --vars, from the project root or a nested directory; compared with direct textual substitution. evaluations = spok invocations; non-trivial = distinct programs with >=1 variable that passed every comparison (or whose failing exec made every action fail)",
+		"rule":                "random variable sets (0-6 variables: strings over printable ASCII without quote characters incl. blanks $ { } \\ % leading '-', join of 0-4 parts incl. '', '.', '..', absolute, exec of printf commands with surrounding blanks/newlines, sometimes one failing exec; names that are also set, with other values, in the ambient environment and/or the .env file) and a task whose commands print '<lit>{{.NAME}}<lit>' (inside single quotes) and \"$NAME\" and run `printenv NAME` (a child program's view of the environment) for every variable; values may hold text that looks like a reference ({{.FOO}}, $FOO); plus one invocation per variable name that the shell, the C library or common tools give a meaning to (HOME, PATH, PWD, IFS, UID, LANG, TMPDIR, ... 32 names); race-built binary with --json and --vars, from the project root or a nested directory; compared with direct textual substitution. evaluations = spok invocations; non-trivial = distinct programs with >=1 variable that passed every comparison (or whose failing exec made every action fail)",
 		"samples":             total.Samples,
 		"counters":            total.Counters,
 		"variable_kinds_seen": total.SetValues("kinds"),
@@ -454,6 +514,18 @@ func c13Run(c *core.Ctx) bool {
 }
 
 func c13Replay(c *core.Ctx, v core.Violation) []core.Violation {
+	var sn struct {
+		Name string `json:"shell_name"`
+	}
+	if json.Unmarshal(v.Case, &sn) == nil && sn.Name != "" {
+		var vs []core.Violation
+		for _, x := range c13ShellNames(c).Violations {
+			if x.Key == "shell-maintained:"+sn.Name {
+				vs = append(vs, x)
+			}
+		}
+		return vs
+	}
 	var k c13case
 	if err := json.Unmarshal(v.Case, &k); err != nil {
 		core.Fatal("replay: %v", err)
